@@ -212,12 +212,16 @@ class BuildFailure(Infra):
     renamed or removed): a tie break, handled by the caller."""
 
 
-def _trim_cache(maxfiles=120):
+def _trim_cache(maxfiles=600, min_age=6 * 3600):
+    """bound the binary cache without ever evicting something a concurrent run may be using: only files older
+    than `min_age` seconds go, oldest first, and only beyond `maxfiles` files"""
     d = os.path.join(CACHE, 'bin')
     fs = sorted(glob.glob(os.path.join(d, '*')), key=os.path.getmtime)
+    now = time.time()
     for f in fs[:-maxfiles]:
         try:
-            os.remove(f)
+            if now - os.path.getmtime(f) > min_age:
+                os.remove(f)
         except OSError:
             pass
 
